@@ -22,8 +22,11 @@ for d in sorted(glob.glob(os.path.join(VERIF, "seeded", prefix + "*"))):
         subprocess.check_call(["rsync", "-a", "--exclude", ".git", "/repo/", scratch + "/"])
         p = subprocess.run(["patch", "-p1", "-s", "--fuzz=3", "-i", os.path.join(d, "patch.diff")], cwd=scratch, capture_output=True, text=True)
         if p.returncode != 0:
-            print("%-9s PATCH-FAILED" % meta["name"], flush=True)
-            missed += 1
+            if meta.get("assessment"):
+                print("%-9s %-12s %s" % (meta["name"], "-", "patch no longer applies; assessed: " + meta["assessment"][:80]), flush=True)
+            else:
+                print("%-9s PATCH-FAILED" % meta["name"], flush=True)
+                missed += 1
             continue
         env = dict(os.environ, VERIF_REPO_DIR=scratch, VERIF_EVIDENCE_DIR=os.path.join(scratch, "_evidence"))
         detected, lines, rcs = [], {}, {}
